@@ -471,7 +471,7 @@ def rule_format(fm, rep, rid='R1', scope='all'):
     cad = fm.cad
     if not hasattr(fm, 'code_fns_used'):
         fm.code_fns_used = set()
-    if not fm.need_roles(rep, {'all': None, 'values': ('prefix', 'key', 'val', 'type', 'rate', 'ts'), 'tags': ('tags', 'cid')}[scope]):
+    if not fm.need_roles(rep, {'all': None, 'values': ('val', 'type', 'rate', 'ts'), 'tags': ('tags', 'cid')}[scope]):
         return
     # a private `fn code(self) -> &'static str` on the kind enum stays a call: its table is checked by the type-code rule
     code_fns = set(x.path for x in cad.all_bodies if _is_code_fn(cad, x))
